@@ -25,13 +25,13 @@ def kwargs_of(frame, n):
                     if isinstance(kk, str):
                         if kk in kw:
                             frame.ctx.event("duplicate-keyword", kk, (kw[kk], vv), guard=frame.guard(), loops=frame.loops, where=frame.where(n))
-                            frame.ctx.raises.append(('TypeError', frame.guard(), frame.where(n)))
+                            frame.ctx.raises.append(('TypeError', frame.guard(), frame.where(n), 'implicit'))
                             raise SE.RaisedInCallee(f'got multiple values for keyword argument {kk!r}')
                         kw[kk] = vv
                     else:
                         extra.append(vv)
             elif v == NONE:
-                frame.ctx.raises.append(('TypeError', frame.guard(), frame.where(n)))
+                frame.ctx.raises.append(('TypeError', frame.guard(), frame.where(n), 'implicit'))
                 frame.ctx.event('typeerror', '** of None', guard=frame.guard(), where=frame.where(n))
                 raise SE.RaisedInCallee('argument after ** must be a mapping, not NoneType')
             else:
